@@ -36,15 +36,18 @@ def nested_to_newick(tree, prefix):
 @st.composite
 def nested_tree(draw, leaves, polytomies=0, max_arity=4):
     """Random tree shape over the given leaf names (nested tuples).  Binary
-    joins of two drawn forest members; up to `polytomies` joins take 3..max_arity
-    members instead."""
+    joins of two drawn forest members; up to `polytomies` joins take 3 or more
+    members instead (the first at most max_arity, later ones at most 3, which
+    bounds the number of binary refinements)."""
     forest = list(leaves)
     poly_left = polytomies
+    cap = max_arity
     while len(forest) > 1:
         k = 2
         if poly_left and len(forest) >= 3 and draw(st.booleans()):
-            k = draw(st.integers(3, min(max_arity, len(forest))))
+            k = draw(st.integers(3, min(cap, len(forest))))
             poly_left -= 1
+            cap = 3
         picked = []
         for _ in range(k):
             i = draw(st.integers(0, len(forest) - 1))
@@ -75,7 +78,7 @@ def biased_size(draw, lo, hi):
 def trees_and_leaves(draw, max_obj, max_sp, min_obj=1, min_sp=1, obj_poly=0, sp_poly=0):
     nsp = biased_size(draw, min_sp, max_sp)
     species = SPECIES_NAMES[:nsp]
-    stree = draw(nested_tree(species, polytomies=sp_poly))
+    stree = draw(nested_tree(species, polytomies=sp_poly, max_arity=3))
     nobj = biased_size(draw, min_obj, max_obj)
     los = {}
     for i in range(nobj):
